@@ -1141,6 +1141,24 @@ def main():
              ", ".join(f"({lstr(a)}, {lstr(b)}, {lstr(c)}, {lstr(d)})" for a, b, c, d in dt_rows
                        if not a.split(".")[1].startswith("_")) + "]")
     F.append(f"def dtypeAssignmentsEvaluated : Nat := {total_dt}")
+    # ---- division audit: every `/` of the three modules whose denominator is not a literal (function, denominator source).  The ℝ reading
+    # totalises x/0 = 0, so a theorem can hold at a vanishing denominator for the wrong reason; the list is pinned by a theorem
+    # (Props/C16Div) so that a new unguarded division cannot appear unnoticed, and DESIGN names the condition that keeps each one non-zero.
+    divs = []
+    for m, c in MODULES:
+        for cls_node in [n for n in trees[m].body if isinstance(n, ast.ClassDef) and n.name == c]:
+            for fn_node in [n for n in cls_node.body if isinstance(n, ast.FunctionDef)]:
+                for n in ast.walk(fn_node):
+                    den = None
+                    if isinstance(n, ast.BinOp) and isinstance(n.op, ast.Div):
+                        den = n.right
+                    elif isinstance(n, ast.AugAssign) and isinstance(n.op, ast.Div):
+                        den = n.value
+                    if den is not None and not (isinstance(den, ast.Constant) and isinstance(den.value, (int, float)) and den.value != 0):
+                        divs.append((f"{c}.{fn_node.name}", ast.unparse(den)))
+    divs = sorted(set(divs))
+    F.append("/-- every `/` whose denominator is not a non-zero literal: (function, denominator); guarded `np.divide(where=)` calls are not in it -/")
+    F.append("def unguardedDivisions : List (String × String) := [" + ", ".join(f"({lstr(a)}, {lstr(b)})" for a, b in divs) + "]")
     F.append("end Gen.Facts\n")
     write_if_changed(os.path.join(outdir, "Facts.lean"), "\n".join(F))
     # ---- junk independence: one `rfl` theorem per function (fails to elaborate iff an uninitialised read is reachable)
